@@ -139,6 +139,7 @@ impl<'tcx> Cx<'tcx> {
             ("stmts", J::Arr(stmts)),
             ("tail", b.expr.map(|e| self.expr(e)).unwrap_or(J::Null)),
             ("unsafe", J::Bool(matches!(b.rules, hir::BlockCheckMode::UnsafeBlock(_)))),
+            ("span", span_json(self.tcx, b.span)),
         ])
     }
 
